@@ -5,8 +5,9 @@ import os
 import common as C
 import c03
 
-PROP_FILES = ["Props/C04.v"]
-OBLIG_FILES = ["Oblig/C04Obl.v", "Oblig/C03Obl.v", "Model/TamperFacts.v", "Model/TruncFacts.v", "Model/ArithFacts.v", "Model/ArithTable.v"]
+PROP_FILES = ["Props/C04.v", "Props/C04Text.v"]
+OBLIG_FILES = ["Oblig/C04Obl.v", "Oblig/C03Obl.v", "Model/TamperFacts.v", "Model/TruncFacts.v", "Model/ArithFacts.v", "Model/ArithTable.v",
+               "Oblig/C04TextObl.v", "Model/TamperTextFacts.v", "Model/TamperTextLift.v", "Model/TruncBytes.v", "Model/TruncCtl.v"]
 
 # perturbation kinds of harness/internal/arith/perturb.go that change exactly one protected field
 PROTECTED_KINDS = "0,1,2,3,4,5,6,8,9,10,12,13,20,21,22,23,24"
@@ -61,16 +62,63 @@ def memory_tamper(ctx):
     ctx.cov["memory_tampers_accepted"] = accepted
 
 
+def text_correspondence(ctx):
+    """Extracted text model (framing, padding, record dispatch, Parse through the regenerated
+    layouts, skeleton, read_validate; coq/Model/TamperText.v) against Reader.Read + Validate on
+    the same bytes: originals (LF, CRLF), one replaced digit per protected field, truncations
+    (every offset around the file control record, a stride elsewhere).  Both sides print
+    "A <skeleton>" (accepted, with the protected fields as read) or "R"."""
+    ok, out = C.build_ocaml("c04text")
+    ctx.log("ocaml c04text", out[-3000:])
+    if not ok:
+        ctx.diag.append("extracted text model does not build: " + out[-600:])
+        return
+    d = os.path.join(ctx.rundir, "corrtext")
+    os.makedirs(d, exist_ok=True)
+    rc, out = C.sh([os.path.join(C.BIN, "c04text"), "corr", "-out", d, "-files", str(ctx.scale(13, 52)),
+                    "-stride", str(ctx.scale(29, 7))], timeout=3000)
+    ctx.log("corr text", out[-2500:])
+    drv = os.path.join(C.BUILD, "ocaml", "c04text", "driver")
+    if rc != 0 or not os.path.exists(drv):
+        ctx.diag.append("text correspondence could not run: " + out[-300:])
+        return
+    mp, ip, cp = os.path.join(d, "model.txt"), os.path.join(d, "impl.txt"), os.path.join(d, "cases.txt")
+    rc2, out2 = C.sh("%s %s > %s" % (drv, cp, mp), timeout=3000)
+    if rc2 != 0:
+        ctx.diag.append("extracted text model crashed: " + out2[-300:])
+    label = "text model vs Read+Validate"
+    ctx.compare(label, mp, ip, cp)
+    try:
+        impl = open(ip).read().splitlines()
+        desc = open(os.path.join(d, "desc.txt")).read().splitlines()
+        acc = {"tamper": 0, "truncate": 0, "original": 0, "sign": 0}
+        tot = {"tamper": 0, "truncate": 0, "original": 0, "set_digit": 0, "sign": 0}
+        for k in range(min(len(impl), len(desc))):
+            for key in tot:
+                if ": " + key in desc[k]:
+                    tot[key] += 1
+                    if key in acc and impl[k].startswith("A"):
+                        acc[key] += 1
+        ctx.cov["correspondence"][label]["by_kind"] = tot
+        ctx.cov["correspondence"][label]["accepted_by_impl"] = acc
+    except (OSError, KeyError):
+        pass
+
+
 def run(ctx):
     ctx.search = search
     ctx.trusted += ["tables emitter translator/tables.go and verif hook verif_export_c03.go (shared with C03)",
-                    "column positions of the protected fields per record type in harness/cmd/c04 (checked against the reader by the oracle itself: a wrong position would tamper an unprotected column and be accepted)"]
-    ctx.assumptions += ["theorems are about the arithmetic skeleton (Model/Arith.v, same model as C03) and, for truncation, about whole record lines (Codec/FileStruct.v); cuts inside a line and the parse of a tampered line are covered by the exhaustive oracle, not by a theorem (C04_truncation_*_partial)",
+                    "column positions of the protected fields per record type in harness/cmd/c04 and cmd/c04text (checked against the reader by the oracle itself: a wrong position would tamper an unprotected column and be accepted); the model's own table (Model/TamperText.v protected_columns) is not trusted: pcol_ok by reflection over Gen/Layouts.v",
+                    "extraction of text_verdict (ocaml/c04text) and the skeleton encoder of harness/internal/arith"]
+    ctx.assumptions += ["theorems are about the arithmetic skeleton (Model/Arith.v, same model as C03) of the file re-parsed through the regenerated layouts (Model/TamperText.v skel), the framing model of C01 (Codec/Framing.v) and the structural reader (Codec/FileStruct.v)",
+                        "byte-offset truncation theorem: record lines of 94 ASCII characters (C04_truncation_bytes_partial); a cut inside a multi-byte character is covered by the exhaustive oracle only",
+                        "numeric protected columns: written value below max_int64 (strconv.Atoi clamps on overflow; relevant for the 20-digit ADV totals only)",
                         "entry amount theorem for IAT/ADV batches and the routing number theorem carry the side conditions of C03 (codes_regular, 8-digit routing numbers)",
                         "the file control's block count is not protected by the library and is excluded (as in the property text)"]
     if not c03.build(ctx, PROP_FILES, OBLIG_FILES):
         return
     memory_tamper(ctx)
+    text_correspondence(ctx)
     summ = oracle(ctx, ctx.scale(52, 520), ctx.scale(3, 40))
     ctx.add_summary(summ, "text tamper / truncation oracle")
     if summ:
